@@ -349,18 +349,19 @@ def nextPatch (remaining : Option (List Fn)) (fields : Kvs) (fns : List Fn) : Pa
 
 def Patch.isEmpty (p : Patch) : Bool := p.fields.isEmpty && p.fns.isEmpty
 
+/-- `memory.remaining_patch = remaining_patch` after the call (unchanged when the call raises). -/
+def memoryAfter (mem : Option (List Fn)) : Outcome → Option (List Fn)
+  | .ok rem _ => rem
+  | .gone => none
+  | .raised => mem
+
 /-- One cycle's patching (`patch_and_check`: nothing is sent for an empty patch) and the
-    `memory.remaining_patch` it leaves (unchanged when the call raises). -/
+    `memory.remaining_patch` it leaves. -/
 def cycle (sub : Bool) (mem : Option (List Fn)) (fields : Kvs) (fns : List Fn) (orig : Obj)
     (env : Env) (s : Server) : Result × Option (List Fn) :=
   let p := nextPatch mem fields fns
   if p.isEmpty then (⟨[], s, .ok none none⟩, none)
-  else
-    let r := patchObj sub p orig env s
-    (r, match r.outcome with
-        | .ok rem _ => rem
-        | .gone => none
-        | .raised => mem)
+  else (patchObj sub p orig env s, memoryAfter mem (patchObj sub p orig env s).outcome)
 
 /-- quiet environment: no slips, no faults -/
 def Env.quiet : Env := { slips := fun _ => none, faults := fun _ => .none }
